@@ -80,6 +80,34 @@ def cat_fn_dim_arith(x):
     return dim_arith(x) + 1.0
 
 
+@onnx_function
+class CatTileRows:
+    """The body needs a dimension its own inputs do not carry."""
+
+    def __init__(self, n):
+        self.n = n
+
+    def __call__(self, v):
+        return jnp.broadcast_to(v, (self.n, v.shape[0])) * 2.0
+
+
+def dim_no_origin_fn(x):
+    return CatTileRows(x.shape[0])(jnp.sum(x, 0))
+
+
+@onnx_function
+class CatOuterTile:
+    def __init__(self, n):
+        self.inner = CatTileRows(n)
+
+    def __call__(self, v):
+        return self.inner(v + 1.0)
+
+
+def dim_no_origin_nested(x):
+    return CatOuterTile(x.shape[0])(jnp.sum(x, 0))
+
+
 _X = np.array([0.5, -1.0, 2.0], np.float32)
 _XS = np.arange(12, dtype=np.float32).reshape(4, 3) * 0.1
 _I = [np.int32(0), np.int32(1), np.int32(2)]
@@ -123,10 +151,17 @@ def _mk(name: str) -> Program:
     raise KeyError(name)
 
 
+def _mk_extra(name: str) -> Program:
+    f = {"dim_no_origin@fn": dim_no_origin_fn, "dim_no_origin@nested_fn": dim_no_origin_nested}[name]
+    p = _p(name, lambda x: f(x), [("B", 3)])
+    p.meta["input_sets"] = [[_XS], [_XS[:1]], [np.concatenate([_XS, _XS])]]
+    return p
+
+
 NAMES = [f"{k}@{pl}" for k in ("unreg", "switch3", "scan_reverse", "fori_dynamic", "dim_arith") for pl in ("top", "loop", "fn")]
 
 
 def build(group: str, name: str) -> Program:
-    p = _mk(name)
+    p = _mk_extra(name) if name.startswith("dim_no_origin") else _mk(name)
     p.pid = f"fx::{group}::{name}"
     return p
